@@ -50,15 +50,37 @@ CHECKS = [
   "Generated histories of next-id draws (single and long runs crossing the 100-id cache ranges), direct ranges and config publishes (history ids) on a real single-node Raft node, with awaited/concurrent compactions, clean restarts and restarts whose last-applied header was rewound (replayed log suffix). A monitor over every id ever issued: per sequence no id twice, next ids strictly increasing, range starts strictly increasing; config history ids pairwise distinct and newest-first per key. The stale-header restart shape is a recorded known finding and is excluded by construction while it is open.",
   "Single-node tier only (several nodes drawing concurrently / leader changes are not exercised). Monotonicity is judged per stream (next-id stream, range stream).",
   "property-based testing (proptest): history invariant monitor over all issued ids in real node processes"),
+ chk("C08", "E3 real processes on loopback (leader + follower)", "exploration",
+  "Generated schedules on real rnacos processes: leader with snapshot threshold 10/20/35, generated write histories (config publish/remove over 24 keys, namespace add/update/remove), a follower that joins before the writes (optionally killed during them) or only afterwards; after the quiescence rule the follower's served data (every key, user-created namespaces, raft members) must equal the leader's, and again after the follower is restarted. Differences before the follower's first restart that stem from a really installed snapshot are the two recorded known findings; everything after the restart is judged strictly.",
+  "Message schedules between processes are sampled, not controlled. The harness keeps a trickle of sentinel writes going while it waits (an idle leader does not catch a lagging node up) and repeats a lost join request once by restarting the joiner.",
+  "property-based testing (proptest-generated schedules) with a leader/follower differential oracle on real processes"),
+ chk("C09", "E1 bare ConfigActor", "exploration",
+  "Model-based: generated histories of the messages the Raft apply paths and the routed-write flow send to a ConfigActor (ConfigAdd incl. routed SetTmpValue + later ConfigAdd, ConfigRemove, SetFullValue imports with 1..100 history items, bursts past the 100-entry bound) over 36 overlapping keys with arbitrary UTF-8 content up to the size limit; after every message GET, a full page walk of the key's history and a full page walk of a generated listing (tenant, exact/fuzzy filters, page sizes) are compared with a reference model (independent md5).",
+  "tenant is always Some (no caller builds an all-tenant query), offsets are page aligned, keys valid per param_utils, imports shaped as the real producers build them.",
+  "property-based testing (proptest) with a reference model (stateful, vec(op) + interpreter)"),
+ chk("C11", "E1 bare NamingActor", "exploration",
+  "Generated histories of every message the HTTP, gRPC, cluster-sync and Raft callers send to a NamingActor (all InstanceUpdateTag combinations, batch sync, client removal, time-out peeks, sniffing results, service update/removal) over 8 services x 4 addresses x 5 connections; after every step, from public queries only: counters equal the listed instances, every service is indexed exactly once with matching totals, per-client records exist and belong to that client, the snapshot records equal the non-ephemeral instances, RemoveService succeeds iff the service is empty. A timed sub-tier crosses the real health / removal time-outs.",
+  "Bare actor without delay-notify / cluster node manage: subscriber and cluster fan-out side effects are not observed.",
+  "property-based testing (proptest): invariants over public queries after every step of a generated history"),
+ chk("C12", "E1 bare NamingActor", "exploration",
+  "Same generator with ownership-heavy weights against a reference model (service -> address -> attributes + owner) built from the statement and the real callers: new instances carry the registered attributes, an HTTP overwrite of a connection-owned ephemeral address keeps the owner, deregistration with a foreign client id leaves an ephemeral instance alone, RemoveClient(c) removes exactly c's ephemeral instances and no persistent one, healthy-only queries follow the protection threshold (f32 arithmetic reproduced). Every query form is compared after every step.",
+  "Metadata precedence and cluster-name filters are not compared.",
+  "property-based testing (proptest) with a reference model (stateful, vec(op) + interpreter)"),
+ chk("C18", "E3 real server + console HTTP", "exploration",
+  "Differential against the administrator on a real server: fixture data in a 6-namespace universe, restricted users (whitelist/blacklist groups stored at creation or by update), a catalogue of 66 console data endpoints of both API versions cross-checked against the routes discovered from console_config (an unclassified data route is exit 2), namespace spellings (omitted, empty, 'public', explicit), request variants. Reads must show no item of a forbidden namespace and only items the admin sees; writes naming a forbidden namespace must leave the admin's snapshot unchanged, permitted ones must behave as the admin's. A deterministic sweep of all endpoints x targets x spellings plus thousands of generated cases. 33 endpoint shapes from 8 root causes are recorded open known findings (keyed on endpoint + operation); anything else is a violation.",
+  "One server per worker is reused and the fixture restored after every write case. Disabled groups and stale sessions after a privilege change are not decided.",
+  "property-based testing (proptest) + exhaustive endpoint sweep with an admin-differential oracle on a real server"),
 ]
 
 ENGINES = [
- {"name": "E1", "path": "harness/src", "serves_properties": ["C20", "C02", "C03", "C05", "C14"],
+ {"name": "E1", "path": "harness/src", "serves_properties": ["C20", "C02", "C03", "C05", "C09", "C11", "C12", "C14"],
   "kind_free_text": "in-process proptest model-based / round-trip checks linked against /repo as a library (fresh actix System per phase for the file-store actor chain)"},
  {"name": "E5", "path": "interpose/journal.c + harness/src/c04.rs", "serves_properties": ["C04"],
   "kind_free_text": "LD_PRELOAD journal of file mutations in a recorder child; parent materialises every journal prefix and runs the real recovery code on it"},
  {"name": "E2", "path": "harness/src/node.rs", "serves_properties": ["C01", "C07", "C19"],
   "kind_free_text": "scripted full node (starter::config_factory + build_share_data) in a child process per phase: leader path through the real Raft, follower path through RaftStorage calls, restart = new process"},
+ {"name": "E3", "path": "harness/src/cluster.rs, harness/src/c18/srv.rs", "serves_properties": ["C08", "C18"],
+  "kind_free_text": "real rnacos-real processes (the shipped main.rs built from /repo's working tree) on loopback with HTTP clients; nemesis by pid (kill -9, restart)"},
 ]
 
 def main():
